@@ -752,6 +752,33 @@ def decorate(ch, rng, errors=True):
     ch.reindex()
 
 
+def long_event_names(ch, hist, tail=70):
+    """Rename the events e1/e2/e3/i1 (first token; descriptors and sub-tokens keep working) to names that share a prefix longer than 64
+    characters and differ only behind it. Returns the renamed history."""
+    pre = 'ev' + 'x' * tail
+    m = {'e1': pre + 'a', 'e2': pre + 'b', 'e3': pre + 'c', 'i1': pre + 'd', 'e4': pre + 'e', 'i2': pre + 'f'}
+
+    def rn(name):
+        head, dot, rest = name.partition('.')
+        return m.get(head, head) + dot + rest
+
+    def acts(a):
+        out = []
+        for x in a:
+            if x[0] in ('raise', 'send', 'sendint'): out.append((x[0], rn(x[1])))
+            elif x[0] == 'if': out.append(('if', [(c, acts(b)) for c, b in x[1]], acts(x[2]) if x[2] is not None else None))
+            elif x[0] == 'foreach': out.append(x[:4] + (acts(x[4]),))
+            else: out.append(x)
+        return out
+    for s in ch.doc:
+        s.onentry = [acts(b) for b in s.onentry]; s.onexit = [acts(b) for b in s.onexit]
+        if s.initial_elem: s.initial_elem = (s.initial_elem[0], acts(s.initial_elem[1]))
+        for t in s.trans:
+            if t.events: t.events = [rn(e) for e in t.events]
+            t.content = acts(t.content)
+    return [rn(e) for e in hist]
+
+
 def gen_chart(seed, rich=False, **kw):
     rng = random.Random(seed)
     ch = Gen(rng, **kw).chart()
